@@ -99,11 +99,12 @@ func paragraphsReattached(c modedit.Case, typed, parsed []string) bool {
 	if !strings.Contains(c.Seed, "\n\n\t") {
 		return false
 	}
-	// the history must put a collapsed line back into a block: an explicit Cleanup, later an AddRetract
+	// the history must put a collapsed line back into a block: a Cleanup (explicit, or the one a bulk
+	// setter is applied after), later an AddRetract
 	cleaned, reblocked := false, false
 	for _, o := range c.Hist {
-		if o.Kind == "Cleanup" {
-			cleaned = true
+		if o.Kind == "Cleanup" || o.Kind == "SetRequire" || o.Kind == "SetRequireSeparateIndirect" {
+			cleaned = true // the two bulk setters are applied after a Cleanup (modedit.Doc.Apply)
 		}
 		if cleaned && o.Kind == "AddRetract" {
 			reblocked = true
